@@ -327,7 +327,11 @@ func Main(args []string) int {
 	seed := fs.Int64("seed", 1, "seed")
 	states := fs.Int("states", 2, "number of non-fresh states (seeded random prefixes)")
 	steps := fs.Int("steps", 14, "operations per random prefix")
+	replay := fs.String("replay", "", "replay file written by bin/check (path root -> failing cell): re-executes that cell and prints the nodes")
 	fs.Parse(args)
+	if *replay != "" {
+		return replayMain(*replay)
+	}
 	chain.SetAccountAddressPrefixes()
 	t0 := time.Now()
 	f := NewFixture()
@@ -346,7 +350,7 @@ func Main(args []string) int {
 			ops = f.RandomPrefix(s, sim.NewRng(*seed*1000+int64(k)), *steps)
 		}
 		r.run = fmt.Sprintf("s%d", k)
-		root := lg.Add(0, r.run, "State", map[string]interface{}{"k": k, "ops": ops}, map[string]interface{}{}, map[string]interface{}{"pre": s.Digest(), "post": s.Digest()})
+		root := lg.Add(0, r.run, "State", map[string]interface{}{"k": k, "seed": *seed, "steps": *steps, "ops": ops}, map[string]interface{}{}, map[string]interface{}{"pre": s.Digest(), "post": s.Digest()})
 		r.execState(s, root, cells)
 	}
 	if *probe {
@@ -360,5 +364,63 @@ func Main(args []string) int {
 		return 2
 	}
 	fmt.Printf("matrix: cells=%d states=%d nodes=%d wall=%.1fs\n", len(cells), *states+1, len(lg.Nodes), time.Since(t0).Seconds())
+	return 0
+}
+
+// refOf is the cell that shows the same message / hook acting without the guard under test.
+func refOf(c Cell) Cell {
+	r := c
+	switch c.M {
+	case "own":
+		r.Signer = "owner"
+	case "priv":
+		r.Chain, r.Sender = "comdex-1", c.Des
+	case "ctl", "hook":
+		r.Breaker, r.Esm, r.Off, r.Pm = false, "off", []string{}, "na"
+	}
+	return r
+}
+
+// replayMain re-executes the failing cell of a replay file (header line, State node, cell node) on the current code:
+// same fixture, same seeded prefix, the reference cell and the cell itself; prints the recorded and the new nodes.
+func replayMain(path string) int {
+	nodes, err := sim.ReadNDJSON(path)
+	if err != nil || len(nodes) < 3 {
+		fmt.Fprintln(os.Stderr, "bad replay file:", err)
+		return 2
+	}
+	chain.SetAccountAddressPrefixes()
+	stArgs, _ := nodes[1]["args"].(map[string]interface{})
+	num := func(v interface{}) int64 { n, _ := v.(json.Number).Int64(); return n }
+	k, seed, steps := num(stArgs["k"]), num(stArgs["seed"]), num(stArgs["steps"])
+	raw, _ := json.Marshal(nodes[len(nodes)-1]["args"])
+	var c Cell
+	if err := json.Unmarshal(raw, &c); err != nil {
+		fmt.Fprintln(os.Stderr, "bad cell:", err)
+		return 2
+	}
+	if c.Off == nil {
+		c.Off = []string{}
+	}
+	f := NewFixture()
+	s := f.E.Branch()
+	ops := []string{}
+	if k > 0 {
+		ops = f.RandomPrefix(s, sim.NewRng(seed*1000+k), int(steps))
+	}
+	lg := &sim.Log{}
+	r := &runner{f: f, lg: lg, run: fmt.Sprintf("s%d", k)}
+	root := lg.Add(0, r.run, "State", map[string]interface{}{"k": k, "seed": seed, "steps": steps, "ops": ops}, map[string]interface{}{}, map[string]interface{}{"pre": s.Digest(), "post": s.Digest()})
+	cells := []Cell{refOf(c)}
+	if key(refOf(c)) != key(c) {
+		cells = append(cells, c)
+	}
+	r.execState(s, root, cells)
+	rec, _ := json.Marshal(nodes[len(nodes)-1])
+	fmt.Println("recorded:", string(rec))
+	for _, n := range lg.Nodes {
+		b, _ := json.Marshal(n)
+		fmt.Println("replayed:", string(b))
+	}
 	return 0
 }
